@@ -41,6 +41,9 @@ type Case struct {
 	// FailAt lists the destination calls (0-based, counted per destination) that return an error
 	// instead of accepting the line (fault histories, judged by runFaults)
 	FailAt []int `json:"fail_at,omitempty"`
+	// OddCounts: the destination accepts every line but reports a byte count different from len(p)
+	// with a nil error (a decorating / prefixing writer): not a failure, nothing may be lost
+	OddCounts bool `json:"odd_counts,omitempty"`
 }
 
 type out struct {
@@ -53,6 +56,7 @@ type dest struct {
 	plain  bool
 	calls  int
 	failAt map[int]bool
+	odd    bool
 }
 
 var errDest = errors.New("destination refused the line")
@@ -65,6 +69,9 @@ func (d *dest) take(l int, p []byte) (int, error) {
 		return 0, errDest
 	}
 	d.log = append(d.log, out{l, string(p)})
+	if d.odd {
+		return []int{len(p) - 1, len(p) + 6, 0, len(p)}[d.calls%4], nil
+	}
 	return len(p), nil
 }
 
@@ -96,7 +103,7 @@ func run(c *Case) (string, bool) {
 	}
 	insts := make([]*inst, ninst)
 	for i := range insts {
-		insts[i] = &inst{d: &dest{plain: c.Plain}}
+		insts[i] = &inst{d: &dest{plain: c.Plain, odd: c.OddCounts}}
 		mk(insts[i])
 	}
 	nontrivial := false
@@ -123,7 +130,7 @@ func run(c *Case) (string, bool) {
 		switch op.K {
 		case "w":
 			n, err := in.tw.WriteLevel(zerolog.Level(op.L), op.Line)
-			if err != nil || n != len(op.Line) {
+			if err != nil || n != len(op.Line) && !c.OddCounts {
 				return fmt.Sprintf("op %d: WriteLevel returned (%d, %v) for a %d-byte line", i, n, err, len(op.Line)), nontrivial
 			}
 			if !in.triggered && op.L >= c.Trig {
@@ -363,6 +370,7 @@ func TestRapid(t *testing.T) {
 			c.Cond = rapid.SampledFrom([]int{-1, 0, 1, 2}).Draw(rt, "cond2")
 			c.Trig = rapid.SampledFrom([]int{1, 2, 3, 4, 0}).Draw(rt, "trig2")
 		}
+		c.OddCounts = rapid.IntRange(0, 4).Draw(rt, "odd") == 0
 		n := rapid.IntRange(1, 40).Draw(rt, "nops")
 		ninst := rapid.SampledFrom([]int{1, 1, 2, 3}).Draw(rt, "ninst")
 		for i := 0; i < n; i++ {
